@@ -145,6 +145,9 @@ func (t *ActiveTable) Delete(ctx context.Context, req *regattapb.DeleteRangeRequ
 	if len(req.Key) > key.LatestVersionLen {
 		return nil, serrors.ErrKeyLengthExceeded
 	}
+	if len(req.RangeEnd) > key.LatestVersionLen {
+		return nil, serrors.ErrKeyLengthExceeded
+	}
 	cmd := &regattapb.Command{
 		Type:  regattapb.Command_DELETE,
 		Table: req.Table,
@@ -162,7 +165,52 @@ func (t *ActiveTable) Delete(ctx context.Context, req *regattapb.DeleteRangeRequ
 	return &regattapb.DeleteRangeResponse{Deleted: r.ResponseDeleteRange.Deleted, PrevKvs: r.ResponseDeleteRange.PrevKvs, Header: &regattapb.ResponseHeader{Revision: rev}}, nil
 }
 
+// validateKeys checks the key (and the optional range end) against the limits of the standalone operations.
+func validateKeys(k, rangeEnd []byte) error {
+	if len(k) == 0 {
+		return serrors.ErrEmptyKey
+	}
+	if len(k) > key.LatestVersionLen || len(rangeEnd) > key.LatestVersionLen {
+		return serrors.ErrKeyLengthExceeded
+	}
+	return nil
+}
+
+// validateTxn makes sure the operations nested in a transaction obey the same limits as their standalone counterparts.
+func validateTxn(req *regattapb.TxnRequest) error {
+	for _, cmp := range req.Compare {
+		if len(cmp.GetKey()) > key.LatestVersionLen || len(cmp.GetRangeEnd()) > key.LatestVersionLen {
+			return serrors.ErrKeyLengthExceeded
+		}
+	}
+	for _, ops := range [][]*regattapb.RequestOp{req.Success, req.Failure} {
+		for _, op := range ops {
+			switch o := op.GetRequest().(type) {
+			case *regattapb.RequestOp_RequestRange:
+				if err := validateKeys(o.RequestRange.GetKey(), o.RequestRange.GetRangeEnd()); err != nil {
+					return err
+				}
+			case *regattapb.RequestOp_RequestPut:
+				if err := validateKeys(o.RequestPut.GetKey(), nil); err != nil {
+					return err
+				}
+				if len(o.RequestPut.GetValue()) > MaxValueLen {
+					return serrors.ErrValueLengthExceeded
+				}
+			case *regattapb.RequestOp_RequestDeleteRange:
+				if err := validateKeys(o.RequestDeleteRange.GetKey(), o.RequestDeleteRange.GetRangeEnd()); err != nil {
+					return err
+				}
+			}
+		}
+	}
+	return nil
+}
+
 func (t *ActiveTable) Txn(ctx context.Context, req *regattapb.TxnRequest) (*regattapb.TxnResponse, error) {
+	if err := validateTxn(req); err != nil {
+		return nil, err
+	}
 	// Do not propose read-only transactions through the log
 	if req.IsReadonly() {
 		return readTable[*regattapb.TxnResponse](t, ctx, true, req)
@@ -199,6 +247,12 @@ func (t *ActiveTable) Txn(ctx context.Context, req *regattapb.TxnRequest) (*rega
 
 // Iterator returns open pebble.Iterator it is an API consumer responsibility to close it.
 func (t *ActiveTable) Iterator(ctx context.Context, req *regattapb.RangeRequest) (iter.Seq[*regattapb.ResponseOp_Range], error) {
+	if len(req.Key) > key.LatestVersionLen {
+		return nil, serrors.ErrKeyLengthExceeded
+	}
+	if len(req.RangeEnd) > key.LatestVersionLen {
+		return nil, serrors.ErrKeyLengthExceeded
+	}
 	return readTable[iter.Seq[*regattapb.ResponseOp_Range]](t, ctx, req.Linearizable, fsm.IteratorRequest{RangeOp: &regattapb.RequestOp_Range{
 		Key:       req.Key,
 		RangeEnd:  req.RangeEnd,
